@@ -349,13 +349,53 @@ def matched_pairs():
     return out
 
 
+def deep_nesting(depths=(8, 33, 40, 130)):
+    """N unnamed saves outstanding at once (one translation between two saves), then N restores: each restore brings back the
+    state of its save, whatever the depth. Inside a current_transform() block too. Returns a list of problems."""
+    out = []
+    for depth in depths:
+        for in_block in (False, True):
+            st = Sut({}, GCodeCore)
+            tr = st.g.transform
+            hist = [f"depth {depth}", "inside current_transform()" if in_block else "plain"]
+            try:
+                cm = st.g.current_transform() if in_block else None
+                if cm is not None:
+                    cm.__enter__()
+                offsets = []
+                for i in range(depth):
+                    tr.save_state()
+                    tr.translate(1.0 + i, -0.5 * i, 0.25)
+                    offsets.append((1.0 + i, -0.5 * i, 0.25))
+                for i in range(depth - 1, -1, -1):
+                    tr.restore_state()
+                    want = tuple(sum(o[k] for o in offsets[:i]) + (1.0, 2.0, 3.0)[k] for k in range(3))
+                    got = tuple(float(v) for v in tr.apply_transform((1.0, 2.0, 3.0)))
+                    if any(abs(a - b) > 1e-6 for a, b in zip(got, want)):
+                        out.append(("deep-nesting-restores-another-state", f"{depth} saves outstanding: restore #{depth - i} gives apply(1,2,3) = {got}, the state of its save gives {want}", hist))
+                        break
+                if cm is not None:
+                    cm.__exit__(None, None, None)
+                    got = tuple(float(v) for v in tr.apply_transform((1.0, 2.0, 3.0)))
+                    if any(abs(a - b) > 1e-9 for a, b in zip(got, (1.0, 2.0, 3.0))):
+                        out.append(("deep-nesting-block-exit", f"after the block: apply(1,2,3) = {got}", hist))
+            except Exception as e:   # noqa: BLE001
+                out.append(("deep-nesting-raised", f"{depth} saves outstanding ({hist[1]}): {e!r}", hist))
+    return out
+
+
 def run(tier, seed):
     res = run_configs("model_checking", systems(tier), tier, seed, RULE, ASSUMPTIONS, snapshot_check=True)
+    from ..common import Violation as _V
+    for sig, msg, hist in deep_nesting():
+        res.add(_V(sig, msg, {"config": "deep-nesting", "history": hist}))
+    res.coverage["deep_nesting_depths"] = [8, 33, 40, 130]
     from ..common import Violation
     found = matched_pairs()
     for sig, msg, hist in found:
         res.add(Violation(sig, msg, {"config": "matched-pairs", "history": hist}))
     res.coverage["matched_pair_sequences"] = 21
+    res.coverage["rule"] += "; plus 8/33/40/130 unnamed saves outstanding at once and unwound (plain and inside current_transform())"
     res.coverage["rule"] += "; plus properly nested save/restore pairs whose names may be read as 'no name' (None, '', blanks, a real name): a restore brings back the state of its matching save"
     return res
 
@@ -363,6 +403,8 @@ def run(tier, seed):
 def replay(body):
     if body["replay"].get("config") == "matched-pairs":
         return {"violations": [[sig, msg] for sig, msg, h in matched_pairs() if h == body["replay"]["history"]]}
+    if body["replay"].get("config") == "deep-nesting":
+        return {"violations": [[sig, msg] for sig, msg, h in deep_nesting() if h == body["replay"]["history"]]}
     label = body["replay"]["config"]
     for l, system, _, _ in systems("thorough") + systems("quick"):
         if l == label:
